@@ -18,6 +18,8 @@ import numpy as np
 from ..common import Snap
 from ..tlc import TLCError
 
+# violation keys of behaviour modelled beyond the statement of the property (reported, never an alarm)
+BEYOND = ("beyond:",)
 INV = ["NormalisedSumsToOne", "EveryObjectWellFormed"]
 PROPS = ["SameProportions", "RejectsIllFormed", "MarginalIsSumOverFibres", "SourceUnchanged", "SaveLoadSame"]
 
@@ -157,6 +159,79 @@ def check_walk(ctx, walk):
     return out
 
 
+DIST_INV = ["OrderIrrelevant", "Symmetric", "ZeroOnDiagonal", "NonNegativeGaussian", "Normalised"]
+SIGMA_HALF = 1.0 / (2.0 * math.log(2.0))  # exp(-d^2 / (2 sigma)) = 2^-(d^2): the specification's exact Gaussian kernel
+
+
+def check_distance_pair(ctx, c):
+    """Distances.tla -> real distributions built with the SAME insertion orders; the laws on the library's floats"""
+    from orquestra.quantum.distributions import MeasurementOutcomeDistribution, compute_clipped_negative_log_likelihood, compute_jensen_shannon_divergence, compute_mmd
+
+    out = []
+    with warnings.catch_warnings():
+        warnings.simplefilter("ignore")
+        P = MeasurementOutcomeDistribution({tuple(e["k"]): float(e["raw"]) for e in c["p"]})
+        Q = MeasurementOutcomeDistribution({tuple(e["k"]): float(e["raw"]) for e in c["q"]})
+    desc = "p = %s, q = %s (insertion order as listed)" % (["".join(map(str, e["k"])) for e in c["p"]], ["".join(map(str, e["k"])) for e in c["q"]])
+    snap = Snap([P, Q])
+    code = lambda k: int("".join(map(str, k)), 2)
+    keys = sorted(set(P.distribution_dict) | set(Q.distribution_dict))
+    diff = [P.distribution_dict.get(k, 0.0) - Q.distribution_dict.get(k, 0.0) for k in keys]
+    for sigma in (1.0, 0.4, [0.5, 2.0], SIGMA_HALF):
+        sig = sigma if isinstance(sigma, list) else [sigma]
+        a = compute_mmd(P, Q, {"sigma": sigma})
+        b = compute_mmd(Q, P, {"sigma": sigma})
+        d = compute_mmd(P, P, {"sigma": sigma})
+        a2 = compute_mmd(P, Q, {"sigma": sigma})
+        if abs(a - b) > 1e-12:
+            out.append(("mmd:symmetry", "%s: mmd(p,q)=%r, mmd(q,p)=%r (sigma %s)" % (desc, a, b, sigma)))
+        if a < -1e-12 or b < -1e-12:
+            out.append(("mmd:negative", "%s: mmd = %r / %r (sigma %s)" % (desc, a, b, sigma)))
+        if abs(d) > 1e-12:
+            out.append(("mmd:diagonal", "%s: mmd(p,p) = %r (sigma %s)" % (desc, d, sigma)))
+        if a2 != a:
+            out.append(("mmd:unstable", "%s: the same call gave %r and then %r (sigma %s)" % (desc, a, a2, sigma)))
+        ref = sum(diff[i] * diff[j] * sum(math.exp(-((code(x) - code(y)) ** 2) / (2 * s_)) for s_ in sig) / len(sig) for i, x in enumerate(keys) for j, y in enumerate(keys))
+        if abs(a - ref) > 1e-10:
+            out.append(("beyond:mmd:definition", "%s: mmd = %r, quadratic form of the definition %r (sigma %s)" % (desc, a, ref, sigma)))
+    if c["gauss"][0] >= 0:
+        want = c["gauss"][0] / c["gauss"][1]
+        got = compute_mmd(P, Q, {"sigma": SIGMA_HALF})
+        if abs(got - want) > 1e-10:
+            out.append(("beyond:mmd:exact", "%s: mmd with exp(-1/(2 sigma)) = 1/2 is %r, exact value %s/%s" % (desc, got, c["gauss"][0], c["gauss"][1])))
+    for eps in (1e-9, 1e-3):
+        nll = compute_clipped_negative_log_likelihood(P, Q, {"epsilon": eps})
+        ent = -sum(v * math.log(v) for v in P.distribution_dict.values() if v > 0)
+        if nll < ent - 1e-9 - eps * 4:
+            out.append(("nll:entropy", "%s: clipped NLL %r is below the target's entropy %r" % (desc, nll, ent)))
+        if compute_clipped_negative_log_likelihood(P, Q, {"epsilon": eps}) != nll:
+            out.append(("nll:unstable", "%s: the same call gave two different values" % desc))
+        js1 = compute_jensen_shannon_divergence(P, Q, {"epsilon": eps})
+        js2 = compute_jensen_shannon_divergence(Q, P, {"epsilon": eps})
+        if abs(js1 - js2) > 1e-12:
+            out.append(("js:symmetry", "%s: symmetrised divergence %r vs %r" % (desc, js1, js2)))
+    if snap.changed():
+        out.append(("distance:mutated", "%s: a distance computation modified a distribution" % desc))
+    return out
+
+
+def check_distances(ctx):
+    quick = ctx.tier == "quick"
+    pairs = []
+    res = ctx.tlc("Distances", constants=dict(W=2, MaxKeys=3 if quick else 4, Emitting=True), invariants=DIST_INV, action_constraints=["Emit"], deadlock=False, coverage=False, timeout=1800)
+    pairs += res.emitted
+    for w, mk, num in ((3, 6, 150 if quick else 1500), (4, 9, 150 if quick else 1500)):
+        r = ctx.tlc("Distances", constants=dict(W=w, MaxKeys=mk, Emitting=True), invariants=DIST_INV, action_constraints=["Emit"], deadlock=False, coverage=False, timeout=1800, simulate="num=%d" % num, depth=2 * mk + 4, workers=1)
+        pairs += r.emitted
+    if len(pairs) < 1000:
+        raise TLCError("Distances exported only %d pairs" % len(pairs))
+    ctx.bounds["distance pairs"] = "all pairs of insertion sequences of <= %d of 4 outcomes (exhaustive); TLC-simulated pairs on 3 and 4 bits with <= 6 / 9 outcomes each" % (3 if quick else 4)
+    for c, fails in zip(pairs, ctx.pmap(check_distance_pair, pairs, chunksize=32)):
+        ctx.count({"k": "distance-pair", "p": [e["k"] for e in c["p"]], "q": [e["k"] for e in c["q"]]}, kind="distance pair (insertion orders)")
+        for key, msg in fails:
+            ctx.violation(key, msg, {"k": "distance-pair", "c": c})
+
+
 def known_k4(ctx):
     """single-subsystem outcomes >= 10 are not representable by the file format (key '10' reads back as (1, 0))"""
     from orquestra.quantum.distributions import MeasurementOutcomeDistribution, load_measurement_outcome_distribution, save_measurement_outcome_distribution
@@ -201,6 +276,7 @@ def run(ctx):
         ctx.count({"k": "history", "ops": [e["op"] for e in w], "last": {"o": w[-1]["o"], "qs": w[-1]["qs"]}}, kind="history of %d steps" % len(w))
         for key, msg in fails:
             ctx.violation(key, msg, {"k": "walk", "walk": [{k: v for k, v in e.items() if not k.startswith("_")} for e in w]})
+    check_distances(ctx)
     known_k4(ctx)
     ctx.judged_numerically += ["MMD symmetry / non-negativity / zero on the diagonal, clipped NLL >= entropy, symmetry of the symmetrised divergence: evaluated on the library's floats for the pairs TLC enumerates"]
     ctx.assumptions.append("marginal keys are built by joining digits: outcome values >= 10 are outside the model")
@@ -209,6 +285,11 @@ def run(ctx):
 def replay(ctx, case):
     if case.get("k") in ("k4", "finding"):
         known_k4(ctx)
+        return
+    if case.get("k") == "distance-pair":
+        ctx.count({"k": "distance-pair"})
+        for key, msg in check_distance_pair(ctx, case["c"]):
+            ctx.violation(key, msg, case)
         return
     if case.get("k") == "walk":
         ctx.count({"k": "history"})
